@@ -2,9 +2,9 @@ CONSTANTS
   Req <- Req4
   Prio <- PrioC
   Ttl <- TtlC
-  Quota = 2
+  Quota = 1
   W = 2
-  QSize = 1
+  QSize = 2
   MaxNow = 7
   KF_C10_LostHandoff = FALSE
   Driver = FALSE
